@@ -11,6 +11,7 @@ PSF = "src/peers/peer_set.go"
 MEDF = "src/common/median.go"
 BSF = "src/hashgraph/badger_store.go"
 EVF = "src/hashgraph/event.go"
+APPC = "src/proxy/socket/app/socket_app_proxy_client.go"
 
 def M(id, prop, rule, *edits):
     return {"id": id, "prop": prop, "rule": rule, "edits": list(edits)}
@@ -164,6 +165,18 @@ MUTANTS = [
  M("c15-hash-cache-written-elsewhere", "C15", "C15.caches", (EVF, "\te.Signature = wrapper.Signature\n", "\te.Signature = wrapper.Signature\n\te.hex = wrapper.Signature\n")),
  M("c15-json-tag-hides-field", "C15", "C15.frame", ("src/hashgraph/frame.go", "\tTimestamp int64                 // unix timestamp (median of round-received famous witnesses)", "\tTimestamp int64 `json:\"-\"`        // unix timestamp (median of round-received famous witnesses)")),
  M("c15-frame-not-canonical", "C15", "C15.frame", ("src/hashgraph/frame.go", "// Marshal returns the JSON encoding of Frame.\nfunc (f *Frame) Marshal() ([]byte, error) {\n\tb := new(bytes.Buffer)\n\tjh := new(codec.JsonHandle)\n\tjh.Canonical = true\n", "// Marshal returns the JSON encoding of Frame.\nfunc (f *Frame) Marshal() ([]byte, error) {\n\tb := new(bytes.Buffer)\n\tjh := new(codec.JsonHandle)\n")),
+ # ---- C20
+ M("c20-return-nil-after-retries", "C20", "C20.err", (APPC, "\t\tbreak\n\t}\n\treturn err\n}", "\t\tbreak\n\t}\n\tif err != nil && err.Error() == \"rpc timeout\" {\n\t\treturn nil\n\t}\n\treturn err\n}")),
+ M("c20-break-on-timeout", "C20", "C20.err", (APPC, "\t\tcase <-time.After(p.timeout):\n\t\t\terr = fmt.Errorf(\"rpc timeout\")\n\t\t\tbreak", "\t\tcase <-time.After(p.timeout):\n\t\t\tp.logger.Debug(fmt.Sprint(\"rpc timeout\"))\n\t\t\tbreak")),
+ M("c20-babble-client-ignores-error", "C20", "C20.err", ("src/proxy/socket/babble/socket_babble_proxy_client.go", "\t\t\tp.rpc = nil\n\t\t\tcontinue\n", "\t\t\tp.rpc = nil\n\t\t\terr = nil\n\t\t\tcontinue\n")),
+ M("c20-retries-zero", "C20", "C20.err", (APPC, "\t\tretries:    3,\n", "\t\tretries:    0,\n")),
+ M("c20-commit-empty-on-error", "C20", "C20.err", (APPC, "\tif err := p.call(\"State.CommitBlock\", block, &commitResponse); err != nil {\n\t\treturn commitResponse, err\n\t}", "\tif err := p.call(\"State.CommitBlock\", block, &commitResponse); err != nil {\n\t\tp.logger.WithError(err).Error(\"CommitBlock\")\n\t\treturn commitResponse, nil\n\t}")),
+ M("c20-ack-ignored", "C20", "C20.err", ("src/proxy/socket/babble/socket_babble_proxy.go", "\tif !*ack {\n\t\treturn fmt.Errorf(\"Failed to deliver transaction to Babble\")\n\t}\n", "\t_ = ack\n\t_ = fmt.Sprint\n")),
+ M("c20-server-swallows-handler-error", "C20", "C20.pass", ("src/proxy/socket/babble/socket_babble_proxy_server.go", "\t}).Debug(\"BabbleProxyServer.CommitBlock\")\n\n\treturn\n", "\t}).Debug(\"BabbleProxyServer.CommitBlock\")\n\n\treturn nil\n")),
+ M("c20-client-sends-copy-without-receipts", "C20", "C20.pass", (APPC, "\tif err := p.call(\"State.CommitBlock\", block, &commitResponse); err != nil {", "\tblock.Body.InternalTransactionReceipts = nil\n\tif err := p.call(\"State.CommitBlock\", block, &commitResponse); err != nil {")),
+ M("c20-submit-ack-before-queue", "C20", "C20.pass", ("src/proxy/socket/app/socket_app_proxy_server.go", "\tp.submitCh <- tx\n\n\t*ack = true\n", "\t*ack = true\n\n\tgo func() { p.submitCh <- tx }()\n")),
+ M("c20-commitresponse-tagged", "C20", "C20.shape", ("src/proxy/types.go", "\tStateHash                   []byte\n", "\tStateHash                   []byte `json:\"state_hash,omitempty\"`\n")),
+ M("c20-transactions-strings", "C20", "C20.shape", ("src/hashgraph/block.go", "\tStateHash                   []byte                       // root hash of the application after applying block payload; to be populated by application Commit\n", "\tStateHash                   []byte                       // root hash of the application after applying block payload; to be populated by application Commit\n\tNote                        string `json:\"-\"`\n")),
 ]
 
 BENIGN = [
@@ -206,4 +219,6 @@ BENIGN = [
 
  B("c15-benign-new-unexported-cache", "C15", (EVF, "\tcreator string\n\thash    []byte\n\thex     string\n}", "\tcreator string\n\thash    []byte\n\thex     string\n\n\tseenAt int64\n}")),
  B("c15-benign-literal-order", "C15", (HGF, "\t\tIndex:                wevent.Body.Index,\n\t\tTimestamp:            wevent.Body.Timestamp,\n", "\t\tTimestamp:            wevent.Body.Timestamp,\n\t\tIndex:                wevent.Body.Index,\n")),
+
+ B("c20-benign-loop-form", "C20", (APPC, "\tfor try := 0; try < p.retries; try++ {", "\tfor try := 1; try <= p.retries; try++ {"), (APPC, "try+1, p.retries, err)\n\t\t\tcontinue\n\t\t}\n\n\t\tcall :=", "try, p.retries, err)\n\t\t\tcontinue\n\t\t}\n\n\t\tcall :=")),
 ]
